@@ -277,6 +277,7 @@ func init() {
 		c.Floor("incarnation counter writes", n, 2)
 
 		// 4. every accusation carrier enters through the three handlers: closed caller set
+		checkLeaveFlagMonotone(c, "C02")
 		checkClaimSources(c, "C02")
 		checkMerge(c, "C02")
 
